@@ -29,6 +29,7 @@ def verdictStr : Verdict → String
   | .badSig => "badsig"
   | .noKey => "missing-dnskey"
   | .missingSigned => "missing-signed"
+  | .err => "err"
 
 def natHex (n : Nat) : String := bytesHex (bytesOfNat n)
 
@@ -118,6 +119,58 @@ def parseDSRecs (s : String) : Option (List DSRec) :=
       some { name := name, cls := cls, keyTag := tag, alg := alg, dt := dtn, digest := dig }
     | _ => none
 
+/-- owner labels, type and class of an uncompressed wire record. -/
+def wireHeader (w : Bytes) : Option (List Label × Nat × Nat) := do
+  let ls ← splitWire (w.length + 1) w
+  let n := (ls.map (fun l => l.length + 1)).sum + 1
+  match w.drop n with
+  | t1 :: t2 :: c1 :: c2 :: _ => some (ls, t1.toNat * 256 + t2.toNat, c1.toNat * 256 + c2.toNat)
+  | _ => none
+
+def parseVKey (s : String) : Option VKey :=
+  match s.splitOn "," with
+  | [fl, pr, al, cl, nm, pk] => do
+    some { flags := ← fl.toNat?, proto := ← pr.toNat?, alg := ← al.toNat?, cls := ← cl.toNat?,
+           name := ← hexBytes nm, pk := ← hexBytes pk }
+  | _ => none
+
+def parseVSig (s : String) : Option VSig :=
+  match s.splitOn "," with
+  | [ty, al, lb, ottl, exp, inc, tg, cl, sg, nm, sig] => do
+    some { typ := ← ty.toNat?, alg := ← al.toNat?, labels := ← lb.toNat?, origTTL := ← ottl.toNat?, exp := ← exp.toNat?,
+           inc := ← inc.toNat?, tag := ← tg.toNat?, cls := ← cl.toNat?, signer := ← hexBytes sg, name := ← hexBytes nm,
+           sigText := ← hexBytes sig }
+  | _ => none
+
+def parseVRecs (rr o c : String) : Option (List VRec) :=
+  if rr == "-" then some [] else do
+  let ws ← (rr.splitOn ",").mapM hexBytes
+  let os ← (o.splitOn ",").mapM hexBytes
+  let cs ← (c.splitOn ",").mapM hexBytes
+  if ws.length != os.length || ws.length != cs.length then none else
+  ((ws.zip os).zip cs).mapM fun ((w, nm), rd) => do
+    let (ls, typ, cls) ← wireHeader w
+    some { name := nm, typ := typ, cls := cls, ownerLabels := ls, canonRd := rd }
+
+def parseCurve (x : String) : Option Bool := if x == "t" then some true else if x == "f" then some false else none
+
+def mkOracle (sw h x : String) : Option SigOracle := do
+  let swb ← hexBytes sw
+  let hb ← hexBytes h
+  -- "k": not a point (`none`); "-": the model must not get as far as asking (answer `false`)
+  some { hashed := hb, curve := if x == "k" then none else some (x == "t"), signerWire := swb }
+
+def vkeyTag (k : VKey) : Nat := modelKeyTag k.flags k.proto k.alg k.pk
+
+def supportedAlg (a : Nat) : Bool := SdnsVerif.Gen.C14.dnskey_algorithms.contains a
+
+def listAt {α : Type} (l : List α) (i : Nat) : Option α := l[i]?
+
+def indexOf {α : Type} [DecidableEq α] (l : List α) (x : α) : Nat :=
+  match l with
+  | [] => 0
+  | y :: t => if y = x then 0 else 1 + indexOf t x
+
 def step (st : State) (w : List String) : State × String :=
   match w with
   | [_, "new"] => (st, "ok")
@@ -148,9 +201,50 @@ def step (st : State) (w : List String) : State × String :=
           dsDigestMatches b64Decode (fun t _ => refs t) limit maxMat (some []) k.flags k.proto k.alg k.pk dt want
         | none => false
       let r := verifyDS supportedDS dmatch limit keys dl
-      (st, s!"unsup={boolStr r.1} ok={boolStr r.2}")
+      let anch := if r.2 then
+          let idx := (List.range keys.length).filter (fun i =>
+            match keys[i]? with
+            | some k => (anchoredKeys supportedDS dmatch limit [k] dl).length == 1
+            | none => false)
+          String.intercalate "." (idx.map toString)
+        else "-"
+      (st, s!"unsup={boolStr r.1} ok={boolStr r.2} anch={anch}")
     | _, _ => (st, "bad-op")
-  | "vfy" :: _ => (st, "unmodelled")
+  | ["vfy", "sig", k, sg, rr, o, c, sw, h, x] =>
+    match parseVKey (k.drop 2).toString, parseVSig (sg.drop 2).toString,
+        parseVRecs (rr.drop 3).toString (o.drop 2).toString (c.drop 2).toString,
+        mkOracle (sw.drop 3).toString (h.drop 2).toString (x.drop 2).toString with
+    | some vk, some vs, some set, some orc =>
+      let own := verifySignature stdVerify b64Decode limits vkeyTag orc vk vs set
+      let cv := cryptoVerify stdVerify b64Decode limits vkeyTag false orc vk vs set
+      (st, s!"own={verdictStr own} cv={if ownAlg vk.alg then verdictStr cv else "lib:reject"}")
+    | _, _, _, _ => (st, "bad-op")
+  | ["vfy", "msg", z, ks, ss, rr, a, o, c, sw, p, hx] =>
+    let keysO : Option (List VKey) := if (ks.drop 2).toString == "-" then some [] else ((ks.drop 2).toString.splitOn ";").mapM parseVKey
+    let sigsO : Option (List VSig) := if (ss.drop 2).toString == "-" then some [] else ((ss.drop 2).toString.splitOn ";").mapM parseVSig
+    match hexBytes (z.drop 2).toString, keysO, sigsO,
+        parseVRecs (rr.drop 3).toString (o.drop 2).toString (c.drop 2).toString, (a.drop 2).toString.toNat? with
+    | some zone, some keys, some sigs, some recs, some nAns =>
+      let sws := (sw.drop 3).toString.splitOn ";"
+      let pers := (p.drop 2).toString.splitOn ";"
+      let hxs := ((hx.drop 3).toString.splitOn ";").map (fun t => t.splitOn ",")
+      let orcOf := fun (k : VKey) (sg : VSig) =>
+        let i := indexOf sigs sg
+        let j := indexOf keys k
+        match listAt sws i, (listAt hxs i).bind (fun row => listAt row j) with
+        | some swi, some cell =>
+          match cell.splitOn ":" with
+          | [h, x] => (mkOracle swi h x).getD {}
+          | _ => ({} : SigOracle)
+        | _, _ => ({} : SigOracle)
+      let cv := fun (k : VKey) (sg : VSig) (set : List VRec) =>
+        cryptoVerify stdVerify b64Decode limits vkeyTag false (orcOf k sg) k sg set
+      let inPeriod := fun (sg : VSig) => (listAt pers (indexOf sigs sg)) == some "t"
+      let oneSig := verifyOneSig cv inPeriod supportedAlg vkeyTag keys
+      let m : VMsg := { answer := recs.take nAns, ns := recs.drop nAns, sigs := sigs }
+      (st, s!"ok={boolStr (verifyRRSIG oneSig keys.length zone m)}")
+    | _, _, _, _, _ => (st, "bad-op")
+  | "vfy" :: _ => (st, "bad-op")
   | ["rsa", "parse", pk] =>
     match hexBytes pk with
     | some pkb =>
